@@ -37,7 +37,7 @@ func c09Table(exited bool, n int) (runner.Status, int) {
 func runC09(res *Result, d *Driver, tier string, seed uint64) {
 	res.Rule = "part A (in-process, hooks): the real (*ptraceHandle).handle and convertReply∘gob∘convertReplyResult are called on every 16-bit wait-status pattern " +
 		"(x main/child pid x execved x already-traced for ptrace; plus ptrace-event stops) and compared with the Go-lite evaluation of the regenerated functions (driver); " +
-		"part B (real processes): `probe exit n` for n=0..255 and `probe raise s` for every terminating signal, under the ptrace runner, the namespace runner and the container (sync before/after exec), " +
+		"part B2: container programs (and their children) that send each signal 1..64 to pid 1 of their namespace and then exit 116; part B (real processes): `probe exit n` for n=0..255 and `probe raise s` for every terminating signal, under the ptrace runner, the namespace runner and the container (sync before/after exec), " +
 		"compared with the documented table. non-trivial = anything but exit 0; distinct = distinct (site, pid role, flags, wait status) or (runner, outcome)."
 	const mainPid = 0x3ffffff0 // above pid_max: every ptrace request answers ESRCH
 	// ---- part A ----
@@ -135,7 +135,7 @@ func runC09(res *Result, d *Driver, tier string, seed uint64) {
 	if err != nil {
 		fatal("container build: %v", err)
 	}
-	defer env.Close()
+	defer func() { env.Close() }()
 	check := func(rn string, o outcome, r runner.Result) {
 		if r.RunningTime > 500*time.Millisecond {
 			res.Note("slow run: %s exited=%v n=%d took %v -> %v", rn, o.exited, o.n, r.RunningTime, r)
@@ -218,6 +218,34 @@ func runC09(res *Result, d *Driver, tier string, seed uint64) {
 		}
 		r, _ = env.runProbe(RunSpec{Script: script, SyncFunc: func(int) error { return nil }}, true)
 		check("container-syncafter", o, r)
+	}
+	// the program (or a child of it) signals pid 1 of its namespace -- the container's init -- and then exits with a code
+	// of its own: the verdict is that exit code, and the environment serves the next program
+	for sig := 1; sig <= 64; sig++ {
+		if sig == 32 || sig == 33 {
+			continue // reserved by the threading library, kill(2) with them is refused by libc wrappers only; raw syscall is used, keep them out
+		}
+		for variant := 0; variant < 2; variant++ {
+			script := fmt.Sprintf("sys 62 1 %d;sleep 30;exit 116", sig)
+			if variant == 1 {
+				if tier != "thorough" && sig%4 != 0 {
+					continue
+				}
+				script = fmt.Sprintf("fork;sys 62 1 %d;exit 0;endfork;wait;sleep 30;exit 116", sig)
+			}
+			r, _ := env.runProbe(RunSpec{Script: script}, sig%2 == 0)
+			r2, _ := env.runProbe(RunSpec{Script: "exit 0"}, false)
+			res.Case(fmt.Sprintf("container signal-init %d v%d", sig, variant), true, "container-signal-init")
+			res.Traces++
+			if r.Status != runner.StatusNonzeroExitStatus || r.ExitStatus != 116 || r2.Status != runner.StatusNormal {
+				res.Mismatch(Mismatch{Kind: "oracle", What: "container: a program that sends a signal to pid 1 of its namespace and exits 116 is Nonzero Exit Status 116, and the next program runs (C09 status table; Runner Error only when the runner could not do its job)", Input: script,
+					Impl: fmt.Sprintf("status=%v exit=%d err=%q; next program `exit 0`: %v %q", r.Status, r.ExitStatus, r.Error, r2.Status, r2.Error), Model: "Nonzero Exit Status 116; Normal", Oracle: "violates", Key: fmt.Sprintf("signal-init-%d", sig)})
+				env.Close()
+				if env, err = newEnv(container.Builder{}); err != nil {
+					fatal("container build: %v", err)
+				}
+			}
+		}
 	}
 	// a cancellation that arrives AFTER the main process ended on its own (but before the tracer collected that event:
 	// the tracer is busy answering a child's trapped syscall) must not rewrite the verdict: exit code N stays exit code N
